@@ -82,7 +82,8 @@ def CurOK (text : List Char) (st : LexState) : Prop :=
 
 /-! ### one call of ply -/
 
-theorem plyToken_eof' (s : LexerState) (text : List Char) (pos p : Nat) (h : plyToken s text pos = .eof p) :
+theorem plyToken_eof' (s : LexerState) (text : List Char) (pos p : Nat) {ap : Bool}
+    (h : plyToken s text pos ap = .eof p) :
     AllIgnored s (text.drop pos) ∧ text.length < p := by
   refine ⟨(plyToken_eof s text pos p h).1, ?_⟩
   unfold plyToken at h
@@ -227,9 +228,9 @@ theorem lexCall_drive {text : List Char} {st : LexState} {r : Option Token} {st'
     obtain ⟨hinv1, hpos⟩ := inv_raw (hinv.toInv hle) hraw
     have hri : RuleInfo text raw := by
       have h1 := rawTok_value hraw
-      have h2 := hraw.rule
+      have h2 := rawTok_ruleInfo hraw
       rw [hinv.textEq] at h1 h2
-      exact ⟨h1, s, h2⟩
+      exact ⟨h1, h2⟩
     have hpre : st.newlineIdx <+: st'.newlineIdx := by
       rw [hpe.2.2.2, hraw.nl.1]; exact List.prefix_append _ _
     have hgood0 : Good text st.newlineIdx raw := by
